@@ -605,7 +605,7 @@ func runCase(c Case) kit.Result {
 
 var _ = kit.Register(kit.Prop[Case]{
 	Name: "VoteOnce",
-	Rule: "histories of 3-45 events for the real Voter+VoteDB+VoteBLSMgr (stubbed sortition/stake/proposal callbacks, real BLS): step timers (monotone), next round index (+1/+2), new round, up to 3 competing proposals, received prevote/precommit/next/certificate votes (single, stale, future, or a 3-sender quorum; adversaries form quorums for different blocks), and crash/restarts: clean stop, or the process killed at the 1st/2nd vote-record write of the next event either before or after the record reaches the disk; the restarted validator gets the context a real restart delivers (round = head+1, index 1). Oracle: over ALL incarnations, per (round, index): <=1 prevote, <=1 precommit, <=1 certificate vote, <=2 next-index votes, never two block hashes for one kind. Non-trivial = a restart after a vote was emitted in that round, or quorums for two different blocks in one index",
+	Rule: "histories of 3-45 events for the real Voter+VoteDB+VoteBLSMgr (stubbed sortition/stake/proposal callbacks, real BLS): step timers (monotone), next round index (+1/+2), new round, up to 3 competing proposals, received prevote/precommit/next/certificate votes (single, stale, future, or a 3-sender quorum; adversaries form quorums for different blocks), and crash/restarts: clean stop, or the process killed at the 1st/2nd vote-record write of the next event either before or after the record reaches the disk; the restarted validator gets the context a real restart delivers (round = head+1, index 1); pause/resume (the same process re-enters index 1); context events of a transition delivered in swapped order (they are posted with AsyncPost, one goroutine each). Oracle: over ALL incarnations, per (round, index): <=1 prevote, <=1 precommit, <=1 certificate vote, <=2 next-index votes, never two block hashes for one kind. Non-trivial = a restart after a vote was emitted in that round, or quorums for two different blocks in one index",
 	Gen:  genCase, Run: runCase,
 	Quick: 200, Thorough: 6000, Chunk: 50, MinNonTrivialPct: 25,
 })
